@@ -1218,6 +1218,110 @@ func c02Text(r *core.Report) {
 			core.Fail("no caching ReadFromURIFunc wrapper found in openapi3")
 		}
 	})
+	r.RunRule("C02.doccache", "the document cache designates documents by their whole location and holds loaded documents only: in the Loader method that registers a document in the map of visited documents, the key of every access to that map is the String() of the function's *url.URL parameter (a key rebuilt from some components makes two locations share one document), and every return of an error that comes after the registration is preceded in its block by a delete of that key (a document that failed to parse or to resolve would otherwise be handed out, half built and with a nil error, by the next load of the location)", 3, func() {
+		docT := p.NamedType("openapi3", "T")
+		n := 0
+		for _, d := range p.AllDecls("openapi3") {
+			if d.Body == nil || d.Recv == nil {
+				continue
+			}
+			isDocMap := func(e ast.Expr) bool {
+				mt, ok := info.TypeOf(e).Underlying().(*types.Map)
+				if !ok {
+					return false
+				}
+				pt, ok := mt.Elem().(*types.Pointer)
+				return ok && core.NamedOf(pt.Elem()) == docT && types.Identical(mt.Key(), types.Typ[types.String])
+			}
+			var store *ast.AssignStmt
+			ast.Inspect(d.Body, func(nd ast.Node) bool {
+				if as, ok := nd.(*ast.AssignStmt); ok && len(as.Lhs) == 1 {
+					if ix, ok := ast.Unparen(as.Lhs[0]).(*ast.IndexExpr); ok && isDocMap(ix.X) {
+						store = as
+					}
+				}
+				return true
+			})
+			if store == nil {
+				continue
+			}
+			var loc types.Object
+			for _, f := range d.Type.Params.List {
+				if pt, ok := info.TypeOf(f.Type).(*types.Pointer); ok {
+					if nn := core.NamedOf(pt); nn != nil && nn.Obj().Name() == "URL" && len(f.Names) == 1 {
+						loc = info.ObjectOf(f.Names[0])
+					}
+				}
+			}
+			ff := core.NewFuncFacts(p, info, d)
+			k := 0
+			var keyObj types.Object
+			ast.Inspect(d.Body, func(nd ast.Node) bool {
+				ix, ok := nd.(*ast.IndexExpr)
+				if !ok || !isDocMap(ix.X) {
+					return true
+				}
+				n++
+				k++
+				key := fmt.Sprintf("doccache:key:%s#%d", core.FuncName(d), k)
+				e := ast.Unparen(ix.Index)
+				if id, ok := e.(*ast.Ident); ok {
+					if as := ff.Assigns(info.ObjectOf(id)); len(as) == 1 && as[0].Rhs != nil {
+						keyObj = info.ObjectOf(id)
+						e = ast.Unparen(as[0].Rhs)
+					}
+				}
+				good := false
+				if ce, ok := e.(*ast.CallExpr); ok && len(ce.Args) == 0 && loc != nil {
+					if sel, ok := ast.Unparen(ce.Fun).(*ast.SelectorExpr); ok && sel.Sel.Name == "String" {
+						if id, ok := ast.Unparen(sel.X).(*ast.Ident); ok && info.ObjectOf(id) == loc {
+							good = true
+						}
+					}
+				}
+				r.Check(good, key, p.Pos(ix.Pos()), "keyed by location.String()", fmt.Sprintf("the document cache is indexed with %s, which is not the String() of the location being loaded: two locations that differ only in what the key leaves out (a query string) are taken for one document, and references into the second resolve inside the first", core.ExprStr(e)))
+				return true
+			})
+			// error returns after the registration
+			k = 0
+			ast.Inspect(d.Body, func(nd ast.Node) bool {
+				blk, ok := nd.(*ast.BlockStmt)
+				if !ok {
+					return true
+				}
+				for i, st := range blk.List {
+					ret, ok := st.(*ast.ReturnStmt)
+					if !ok || ret.Pos() < store.Pos() || len(ret.Results) != 2 || core.IsNil(info, ret.Results[1]) {
+						continue
+					}
+					n++
+					k++
+					key := fmt.Sprintf("doccache:unregister:%s#%d", core.FuncName(d), k)
+					deleted := false
+					for _, prev := range blk.List[:i] {
+						es, ok := prev.(*ast.ExprStmt)
+						if !ok {
+							continue
+						}
+						c, ok := es.X.(*ast.CallExpr)
+						if !ok || len(c.Args) != 2 {
+							continue
+						}
+						if id, ok := ast.Unparen(c.Fun).(*ast.Ident); ok && id.Name == "delete" && isDocMap(c.Args[0]) {
+							if kid, ok := ast.Unparen(c.Args[1]).(*ast.Ident); ok && (keyObj == nil || info.ObjectOf(kid) == keyObj) {
+								deleted = true
+							}
+						}
+					}
+					r.Check(deleted, key, p.Pos(ret.Pos()), "the failed document is taken out of the cache", core.FuncName(d)+" returns an error after registering the document and leaves it in the cache: the next load of the same location with this loader returns the half-built document (unresolved references) with a nil error")
+				}
+				return true
+			})
+		}
+		if n == 0 {
+			core.Fail("no Loader method registering documents found")
+		}
+	})
 }
 
 // c02Untyped: a reference whose pointer stops at an object of the wrong kind fails the load. The
